@@ -49,11 +49,16 @@ def c04_key_table(ki: int) -> bool:
         M = keys.relative_major(k)
         if keys.relative_minor(M) != k or sorted(keys.get_notes(M)) != sorted(ns) or (pc(tonic) - pc(M)) % 12 != 9:
             return False
+        # the relative major asked after the minor key (and the minor key again after that)
+        if list(keys.get_notes(M)) != T.key_notes(M, False) or list(keys.get_notes(k)) != exp:
+            return False
         if not raises_(NoteFormatError, keys.relative_minor, k):
             return False
     else:
         m = keys.relative_minor(k)
         if keys.relative_major(m) != k or sorted(keys.get_notes(m)) != sorted(ns) or (pc(T.key_tonic(m)) - pc(tonic)) % 12 != 9:
+            return False
+        if list(keys.get_notes(m)) != T.key_notes(T.key_tonic(m), True) or list(keys.get_notes(k)) != exp:
             return False
         if not raises_(NoteFormatError, keys.relative_major, k):
             return False
